@@ -8,7 +8,8 @@ ENTRY = {'coq_dir': 'C10',
             'SCORE_ADDRESS_FAILURE_NEG',
             'SCORE_PUBLIC_ADDRESS_BONUS',
             'C10_DIAL_ERROR_LEAVES',
-            'C10_ERROR_SCORE_ARMS'],
+            'C10_ERROR_SCORE_ARMS',
+            'C10_STORE_SITES'],
  'rule': 'every run starts with 43 systematic cases: (failure or success path: update_address_on_dial_failure, dial_address + DialFailure event, '
          'dial(peer) + OpenFailure events, dial(peer) + ConnectionOpened with errors, update_address_on_connection_established, dial_address + '
          'ConnectionEstablished) x (score of the address beforehand: untested private 0, untested global +1, established 100, failed -100, banned '
@@ -78,8 +79,10 @@ ENTRY = {'coq_dir': 'C10',
                'connections (everything when unlimited), each address goes to the installed transport it is routed to, and the outcome re-scores '
                'exactly the attempts made (each failed one to the score of its error kind, established score for the one that connected); public '
                'addresses always end in /p2p/<local> (add/remove specified), the listen set holds each address with and without /p2p/<local>. The '
-               'model is tied to handle.rs/address.rs/mod.rs/limits.rs/listener.rs/addresses.rs/error.rs by a per-operation differential run with '
-               'store dumps that drives every constructible DialError variant through every failure path on addresses of every score class.',
+               "places where the manager writes into a peer's store (five, extracted from src/transport/manager/*.rs) are proved to be exactly the "
+               "ones the model's operations cover. The model is tied to handle.rs/address.rs/mod.rs/limits.rs/listener.rs/addresses.rs/error.rs by a "
+               'per-operation differential run with store dumps that drives every constructible DialError variant through every failure path on '
+               'addresses of every score class.',
  'level_note': 'Trusted: Coq kernel, ExtrOcamlBasic extraction, harness and hooks (incl. the scripted transport), the regex translators; IP '
                'classification only on the mapped ranges; QUIC paths and NegotiationError::Quic proved on the model but not diffed (feature off); '
                'dial(peer) is not called on stores it could wedge on (guard, see trusted base). Observation (not judged a violation: dial_address is '
